@@ -146,7 +146,9 @@ Qed.
    unforgeability is the admissibility of its events ([gadm]): a valid partial of an index outside
    F can only be replayed, a verifying beacon can be served or assembled only if one of that round
    exists or a threshold of valid partials for it is on the wire.  Honest clocks are accurate
-   (real time advances them together) and a tick carries the current round of the clock.
+   (real time advances them together) and a tick carries the current round of the clock.  Resharing is
+   included: a node may be handed a new group (ETransition) of another sharing, with its own
+   threshold and its own set of adversarial indices, and switches when the target round is stored.
    In EVERY reachable state: no beacon of a future round exists anywhere, not even in the
    adversary's hands -- the next round's randomness is unknown before its time; no honest chain
    holds a future round; no valid partial of an index outside F is for a future round.  The
@@ -165,29 +167,29 @@ Section C04_system.
               forall x, In x I -> vpart P r p x = true.
   Hypothesis Hp : dom_p (c_period C).
   Hypothesis Hg : dom_g (c_genesis C).
-  Variable F : list Z.
-  Variable P t : Z.
-  Hypothesis F_small : Z.of_nat (length F) < t.
+  Variable thr_of : Z -> Z.       (* threshold of the sharing a public polynomial identifies (one per epoch) *)
+  Variable F_of : Z -> list Z.    (* the share indices of that sharing the adversary holds *)
+  Hypothesis F_small : forall P, Z.of_nat (length (F_of P)) < thr_of P.
   Variable gen : beacon.
   Hypothesis gen_round : b_round gen = 0.
 
   Theorem C04_system_no_future_round : forall y0 gs,
-    sys_inv C idx_of vpart vrec F P t gen y0 ->
-    gadm_run C idx_of vpart recov vrec own_of F P t y0 gs ->
+    sys_inv C idx_of vpart vrec thr_of F_of gen y0 ->
+    gadm_run C idx_of vpart recov vrec own_of thr_of F_of y0 gs ->
     let y := grun C idx_of vpart recov vrec own_of y0 gs in
     (forall b, In b (y_known y) -> b_round b <= cr C (y_time y)) /\
     (forall s, In s (y_nodes y) -> forall b, In b (s_chain s) -> b_round b <= cr C (y_time y)) /\
-    (forall r p sg, In (r, p, sg) (y_pool y) -> vpart P r p sg = true -> ~ In (idx_of sg) F ->
+    (forall r p sg P, In (r, p, sg) (y_pool y) -> vpart P r p sg = true -> ~ In (idx_of sg) (F_of P) ->
        r <= cr C (y_time y)).
   Proof.
-    exact (run_no_future C idx_of vpart recov vrec own_of vrec_unchained recov_sound Hp Hg F P t F_small gen gen_round).
+    exact (run_no_future C idx_of vpart recov vrec own_of vrec_unchained recov_sound Hp Hg thr_of F_of F_small gen gen_round).
   Qed.
 
   (* the initial state (every node holds the genesis beacon, nothing on the wire) satisfies the invariant *)
   Theorem C04_system_init : forall now gs, now_dom (c_genesis C) now ->
-    (forall g, In g gs -> g_poly g = P /\ g_thr g = t) ->
-    sys_inv C idx_of vpart vrec F P t gen (init_sys gen now gs).
-  Proof. exact (init_inv C idx_of vpart vrec Hp Hg F P t gen). Qed.
+    (forall g, In g gs -> okgrp thr_of g) ->
+    sys_inv C idx_of vpart vrec thr_of F_of gen (init_sys gen now gs).
+  Proof. exact (init_inv C idx_of vpart vrec Hp Hg thr_of F_of gen). Qed.
 End C04_system.
 Print Assumptions C04_system_no_future_round.
 Print Assumptions C04_system_init.
@@ -210,7 +212,7 @@ Definition sy_events : list gevent :=
    GAdvPartial (1, 0, 301); GDeliver 2 (1, 0, 301); GDeliver 2 (1, 0, 1);
    GClock 4; GNode 0 (ETick 2 None)].
 Example C04_system_nonvacuous :
-  gadm_run sy_C sy_idx sy_vpart sy_recov sy_vrec sy_own [3] 0 3 sy_init sy_events /\
+  gadm_run sy_C sy_idx sy_vpart sy_recov sy_vrec sy_own (fun _ => 3) (fun _ => [3]) sy_init sy_events /\
   map (fun s => b_round (head s)) (y_nodes (grun sy_C sy_idx sy_vpart sy_recov sy_vrec sy_own sy_init sy_events)) = [1; 1; 1] /\
   y_time (grun sy_C sy_idx sy_vpart sy_recov sy_vrec sy_own sy_init sy_events) = 1004.
 Proof.
